@@ -36,7 +36,7 @@ def check(pid, tier):
     # scheduler side: in whole runs the time requested from the source equals the spec's
     # shifted time (and the driver's choices are consistent with it: C01/C02 clauses)
     cfgs = []
-    for fam in (["pair", "ring2"] if tier == "quick" else ["pairL", "pair3", "ring2", "ring3", "ringbreak"]):
+    for fam in (["pair", "ring2", "chain3d"] if tier == "quick" else ["pairL", "pair3", "ring2", "ring3", "ringbreak", "chain3d"]):
         got = tlc.emit("SchedEmit", {"FAMILY": fam})
         cfgs += [c for c in got if "chained_delays" in check_sched.features(c) or fam != "pairL"]
     import random
